@@ -27,12 +27,20 @@ DECOY = 7.0  # diffusion part at T/2
 ALPHABETS = {
     "A3": (0.5, 1.0, 1.5),  # symmetric about the middle letter: sample means hit the given control price exactly
     "A4": (0.5, 1.0, 1.5, 2.0),  # four letters: two controls + intercept do not interpolate the payoff
+    # path-dependent payoffs: a letter is (spot at T/2, terminal spot); the path starts at spot 1. With the barriers 1.25 (up)
+    # and 0.75 (down) the value at T/2 crosses up (2.0), down (0.25) or not at all (1.0), and the terminal values 1.5 / 0.5
+    # cross on their own.
+    "B9": tuple((m, t) for m in (1.0, 2.0, 0.25) for t in (0.5, 1.0, 1.5)),
 }
+BARRIER_UP, BARRIER_DOWN, BARRIER_STRIKE = 1.25, 0.75, 0.25
+BARRIER_KINDS = ("b-ui", "b-uo", "b-di", "b-do")
 
 STRIKES = {"s": 0.75, "v2": [0.75, 1.25], "v3": [0.25, 0.75, 1.25],
            # payoffs on an underlying type other than Spot (sub "mixed"): call on the log-spot / on the mean of the spots
-           "ls": -0.25, "lv2": [-0.25, 0.25], "m": 0.75, "mv2": [0.75, 1.25]}
-PAYOFF_UNDERLYING = {"s": "spot", "v2": "spot", "v3": "spot", "ls": "logspot", "lv2": "logspot", "m": "mean", "mv2": "mean"}
+           "ls": -0.25, "lv2": [-0.25, 0.25], "m": 0.75, "mv2": [0.75, 1.25],
+           "b-ui": BARRIER_STRIKE, "b-uo": BARRIER_STRIKE, "b-di": BARRIER_STRIKE, "b-do": BARRIER_STRIKE}
+PAYOFF_UNDERLYING = {"s": "spot", "v2": "spot", "v3": "spot", "ls": "logspot", "lv2": "logspot", "m": "mean", "mv2": "mean",
+                     "b-ui": "spot", "b-uo": "spot", "b-di": "spot", "b-do": "spot"}
 LFWD_K = -0.5  # strike of the forward on the log-spot
 LCALL_K = -0.25  # strike of the call on the log-spot
 
@@ -41,7 +49,9 @@ FWD_K = (0.125, 0.25, 0.375)
 CALL_K = (0.875, 0.625, 1.125)
 
 CV_KINDS = ("none", "1r", "1a", "2r", "2a", "2u")
-CROSS_CV_KINDS = ("1x", "2x")  # controls on an underlying type different from the product's
+CROSS_CV_KINDS = ("1x", "2x")
+TINY_CV_KINDS = ("1t", "2t")  # control products with small notionals: 1e-7; the pair 1e-3 / 1e-6
+TINY_NOTIONALS = {"1t": (1e-7,), "2t": (1e-3, 1e-6)}  # controls on an underlying type different from the product's
 
 
 def quiet():
@@ -111,9 +121,17 @@ class ScriptedProcess:
         return self._df
 
     def stochastic_parts(self, k):
-        """(diffusion, jump) arrays of the k-th path."""
-        target = self.letters[k] if self.representation == "identity" else math.log(self.letters[k])
-        diff = np.array([0.0, DECOY, (target - DET[2]) - JUMP[2]])
+        """(diffusion, jump) arrays of the k-th path. A letter is the terminal spot (decoy at T/2, path value 0 at time 0)
+        or a pair (spot at T/2, terminal spot), the path then starting at spot 1."""
+        letter = self.letters[k]
+        ident = self.representation == "identity"
+        if isinstance(letter, (tuple, list)):
+            mid, term = letter
+            x0, xm, target = (1.0, mid, term) if ident else (0.0, math.log(mid), math.log(term))
+            diff = np.array([(x0 - DET[0]) - JUMP[0], (xm - DET[1]) - JUMP[1], (target - DET[2]) - JUMP[2]])
+        else:
+            target = letter if ident else math.log(letter)
+            diff = np.array([0.0, DECOY, (target - DET[2]) - JUMP[2]])
         jump = np.array(JUMP)
         return diff, jump
 
@@ -131,6 +149,8 @@ class ScriptedProcess:
 
 def terminal_spot(letter, representation):
     """What the library must see as the terminal spot of a path scripted with `letter` (same association as MCPath)."""
+    if isinstance(letter, (tuple, list)):
+        letter = letter[1]
     target = letter if representation == "identity" else math.log(letter)
     x = DET[2] + (((target - DET[2]) - JUMP[2]) + JUMP[2])
     return x if representation == "identity" else math.exp(x)
@@ -157,16 +177,31 @@ def make_product(kind, notional):
 
     k = STRIKES[kind]
     strike = k if isinstance(k, float) else list(k)
-    return Product(payoff_underlying=_underlying(PAYOFF_UNDERLYING[kind]), payoff=Vanilla(strike=strike, payoff_type=PayoffType.CALL),
-                   maturity=MATURITY, notional=notional)
+    if kind in BARRIER_KINDS:
+        from rpylib.product.payoff import Barrier, BarrierType
+
+        bt = {"b-ui": BarrierType.UP_AND_IN, "b-uo": BarrierType.UP_AND_OUT, "b-di": BarrierType.DOWN_AND_IN,
+              "b-do": BarrierType.DOWN_AND_OUT}[kind]
+        payoff = Barrier(strike=strike, payoff_type=PayoffType.CALL, barrier_type=bt,
+                         barrier=BARRIER_UP if kind[2] == "u" else BARRIER_DOWN)
+    else:
+        payoff = Vanilla(strike=strike, payoff_type=PayoffType.CALL)
+    return Product(payoff_underlying=_underlying(PAYOFF_UNDERLYING[kind]), payoff=payoff, maturity=MATURITY, notional=notional)
 
 
-def payoff_unit(kind, s):
-    """Undiscounted, un-notionalled payoff components of terminal spot s."""
+def payoff_unit(kind, s, letter=None):
+    """Undiscounted, un-notionalled payoff components of a path with terminal spot s (for the barrier kinds `letter` is the
+    scripted (spot at T/2, terminal spot) pair: the reference reads the WHOLE path 1 -> mid -> terminal)."""
     k = STRIKES[kind]
     ks = [k] if isinstance(k, float) else k
     u = underlying_value(PAYOFF_UNDERLYING[kind], s)
-    return [max(u - x, 0.0) for x in ks]
+    van = [max(u - x, 0.0) for x in ks]
+    if kind in BARRIER_KINDS:
+        spots = (1.0, letter[0], letter[1])
+        hit = any(v > BARRIER_UP for v in spots) if kind[2] == "u" else any(v < BARRIER_DOWN for v in spots)
+        alive = hit if kind[3] == "i" else not hit
+        return van if alive else [0.0 for _ in van]
+    return van
 
 
 def _sq(s):
@@ -213,6 +248,10 @@ def control_spec(cv_kind, dim, payoff="s"):
             names = ["forward"] if cv_kind == "1x" else ["forward", "lforward"]
         fun = {"forward": _f_forward, "call": _f_call, "lforward": _f_lforward, "lcall": _f_lcall}
         return [(nm, [fun[nm]] * dim, False) for nm in names]
+    if cv_kind in TINY_CV_KINDS:
+        names = ["forward"] if cv_kind == "1t" else ["forward", "call"]
+        fun = {"forward": _f_forward, "call": _f_call}
+        return [(nm, [fun[nm]] * dim, False) for nm in names]
     vector = cv_kind.endswith("a") and dim > 1
     out = []
     if vector:
@@ -229,9 +268,16 @@ def control_spec(cv_kind, dim, payoff="s"):
     return out
 
 
+def control_notionals(cv_kind, notional, ncv):
+    """Notional of each control product: the product's own notional, except for the small-notional kinds."""
+    return list(TINY_NOTIONALS[cv_kind]) if cv_kind in TINY_CV_KINDS else [notional] * ncv
+
+
 def control_prices(cv_kind, dim, notional, df, payoff="s"):
     """Given ("market") prices P[j][c] of control j for payoff component c."""
-    return [[notional * df * _bal_mean(f) for f in fs] for (_, fs, _) in control_spec(cv_kind, dim, payoff)]
+    spec = control_spec(cv_kind, dim, payoff)
+    cn = control_notionals(cv_kind, notional, len(spec))
+    return [[cn[j] * df * _bal_mean(f) for f in fs] for j, (_, fs, _) in enumerate(spec)]
 
 
 def make_controls(cv_kind, dim, notional, df, payoff="s"):
@@ -243,6 +289,7 @@ def make_controls(cv_kind, dim, notional, df, payoff="s"):
         return None
     spec = control_spec(cv_kind, dim, payoff)
     P = control_prices(cv_kind, dim, notional, df, payoff)
+    cn = control_notionals(cv_kind, notional, len(spec))
     products, prices = [], []
     for j, (name, fs, per_comp) in enumerate(spec):
         und = "logspot" if name in ("lforward", "lcall") else "spot"
@@ -257,7 +304,7 @@ def make_controls(cv_kind, dim, notional, df, payoff="s"):
             pay = Vanilla(strike=LCALL_K, payoff_type=PayoffType.CALL)
         else:
             pay = PayoffOnTheFly(_sq)
-        products.append(Product(payoff_underlying=_underlying(und), payoff=pay, maturity=MATURITY, notional=notional))
+        products.append(Product(payoff_underlying=_underlying(und), payoff=pay, maturity=MATURITY, notional=cn[j]))
         if cv_kind.endswith("r"):
             prices.append(float(P[j][0]))  # one real number per control (a scalar control has one market price)
         else:
@@ -291,8 +338,9 @@ def reference_rows(case, letters):
     nt, df = case["notional"], case["df"]
     spec = control_spec(case["cv"], dim, case["payoff"])
     S = [terminal_spot(v, rep) for v in letters]
-    Y = [[(nt * p) * df for p in payoff_unit(case["payoff"], s)] for s in S]
-    X = [[[(nt * f(s)) * df for f in fs] for (_, fs, _) in spec] for s in S]
+    cn = control_notionals(case["cv"], nt, len(spec))
+    Y = [[(nt * p) * df for p in payoff_unit(case["payoff"], s, v)] for s, v in zip(S, letters)]
+    X = [[[(cn[j] * f(s)) * df for f in fs] for j, (_, fs, _) in enumerate(spec)] for s in S]
     return S, Y, X
 
 
